@@ -33,8 +33,9 @@ Abstractions (each stated where it is made):
 * strings are `List Char` (UTF-8 byte order = code-point order);
 * a float is a dyadic rational `m · 2^-e` (every finite `f64` is one) plus its display text;
   `i64 as f64` is taken to be exact (literals within ±2^53);
-* `ZoneHydrator` loads column values only into candidate zones that carry a uid as soon as one
-  candidate does (`CandidateZone::uid`, set by the metadata enumeration, not by the pruners);
+* `ZoneHydrator` loads column values into every candidate zone, with or without uid
+  (`CandidateZone::uid` is set by the metadata enumeration, not by the pruners; since /repo fix
+  4f45061 the uid-less ones are loaded with the plan's event-type uid);
 * the leaf pruners (SuRF, zone XOR, field XOR, enum bitmap, calendar + per-zone temporal index)
   are an abstract function `Raw` — what `RangePruner::apply_surf_only`,
   `XorPruner::apply_zone_index_only` / `apply_presence_only`, `EnumPruner::apply`,
@@ -643,12 +644,13 @@ def World.candFlagged (w : World) (e : Expr) : List (Zone × Bool) :=
     s.zones.filterMap fun z =>
       (candU (w.sel j s) (fun f op l => (w.selU j s f op l).2) z.id false e).map fun u => (z, u)
 
-/-- `ZoneHydrator::hydrate`: if any candidate zone carries a uid, column values are loaded
-*only* into the zones that carry one (per-uid loaders); the others stay empty and
-`evaluate_zones_with_limit` skips them. If none does, all are loaded with the event type's uid. -/
-def World.hydrated (w : World) (e : Expr) : List Zone :=
-  let c := w.candFlagged e
-  if c.any (·.2) then (c.filter (·.2)).map (·.1) else c.map (·.1)
+/-- `ZoneHydrator::hydrate` (after /repo fix 4f45061): column values are loaded into **every**
+candidate zone — zones that carry a uid through the per-uid loaders, zones without one through a
+loader for the plan's event-type uid (before the fix the latter stayed empty as soon as any
+candidate carried a uid, and `evaluate_zones_with_limit` skipped them). The uid flag is still
+tracked by `candU` / `candFlagged` (it is what the code computes) but no longer influences the
+answer. -/
+def World.hydrated (w : World) (e : Expr) : List Zone := (w.candFlagged e).map (·.1)
 
 /-- Rows of the candidate zones that are actually evaluated. -/
 def World.candRows (w : World) (e : Expr) : List Row := (w.hydrated e).flatMap (·.rows)
